@@ -6,7 +6,6 @@ import (
 	"google.golang.org/protobuf/proto"
 	"github.com/openconfig/gnmi/ctree"
 	"github.com/openconfig/gnmi/path"
-	"github.com/openconfig/gnmi/value"
 	zz "github.com/openconfig/gnmi/zzverif"
 
 	pb "github.com/openconfig/gnmi/proto/gnmi"
@@ -108,7 +107,8 @@ func (r *c03Replayer) agrees(c *Cache) {
 				r.h.Assert(now.Timestamp >= e.atCall.Timestamp, "C03: a leaf never goes back in time after it was announced")
 				if !now.Atomic && now != e.atCall {
 					// only a suppressed (value-equal) later update may differ from what was announced
-					r.h.Assert(value.Equal(now.Update[0].Val, e.atCall.Update[0].Val), "C03: an update is withheld from the feed only when it left the value unchanged")
+					// structural equality of the values (not value.Equal, the function under test)
+					r.h.Assert(proto.Equal(now.Update[0].Val, e.atCall.Update[0].Val), "C03: an update is withheld from the feed only when it left the value unchanged")
 				}
 			}
 		}
